@@ -17,6 +17,12 @@
 //!   4  an en-passant capture x the mover's king on every square x an enemy slider on every square
 //!      aligned with that king: every pin that makes the capture illegal (along the rank through both
 //!      pawns, on the file, on either diagonal) and the look-alikes where it stays legal.
+//!   6  every absolute pin: an enemy slider, the mover's king on every square of each of its lines and
+//!      a man of the mover of every kind (P N B R Q) on every square in between (a pawn gets enemy
+//!      men on both squares it could capture on): the pinned man may move along the line only;
+//!   7  castling through every kind of attack: king and rook(s) at home with the rights x an enemy
+//!      man of every kind (N B R Q P K) on every square, or an own knight on every square of the
+//!      back rank: which squares may be attacked or occupied, and by what.
 //! A combination that is not a valid position (kings adjacent, the side not to move in check, ...)
 //! is skipped and counted.
 
@@ -112,6 +118,33 @@ pub fn items() -> Vec<GridItem> {
             push(2, cfg, 0, king, 0);
         }
     }
+    // family 6: pins (same line enumeration as family 1, the roles of the colours exchanged)
+    for (si, sk) in SLIDERS.iter().enumerate() {
+        for s in 0..64u8 {
+            for king in 0..64u8 {
+                if !line_fits(*sk, s, king) {
+                    continue;
+                }
+                let (_, _, n) = step_between(s, king).unwrap();
+                for step in 1..n {
+                    for bi in 0..5usize {
+                        push(6, si as u8, s, king, (bi as u8) * 8 + step as u8);
+                    }
+                }
+            }
+        }
+    }
+    // family 7: castling with an enemy man of every kind on every square / an own knight on the back rank
+    for cfg in 1..=3u8 {
+        for kind in 0..7u8 {
+            for sq in 0..64u8 {
+                if kind == 6 && sq >= 8 {
+                    continue;
+                }
+                push(7, cfg, kind, sq, 0);
+            }
+        }
+    }
     // families 3 and 4
     for vf in 0..8u8 {
         for side in 0..2u8 {
@@ -182,7 +215,9 @@ pub fn describe(it: &GridItem) -> &'static str {
         1 => "grid_slider_blocker_enemy_king",
         2 => "grid_castling_x_enemy_king",
         3 => "grid_en_passant_x_enemy_king_x_own_slider",
-        _ => "grid_en_passant_x_own_king_x_enemy_slider",
+        4 => "grid_en_passant_x_own_king_x_enemy_slider",
+        6 => "grid_pinned_man_of_every_kind_on_every_line",
+        _ => "grid_castling_x_enemy_man_on_every_square",
     }
 }
 
@@ -282,6 +317,70 @@ pub fn build(it: &GridItem) -> Option<Pos> {
                     return None;
                 }
                 with_spare_king(&p, b, rot)?
+            }
+        }
+        6 => {
+            let sk = SLIDERS[it.a as usize];
+            let pinned = [Kind::P, Kind::N, Kind::B, Kind::R, Kind::Q][(it.d / 8) as usize % 5];
+            let step = (it.d % 8) as i32;
+            let (df, dr, n) = step_between(it.b, it.c)?;
+            if step < 1 || step >= n {
+                return None;
+            }
+            let x = sq_of(file_of(it.b) + df * step, rank_of(it.b) + dr * step)?;
+            if pinned == Kind::P && (x < 8 || x >= 56) {
+                return None;
+            }
+            place(&mut p, it.b, (b, sk));
+            place(&mut p, it.c, (w, Kind::K));
+            place(&mut p, x, (w, pinned));
+            if pinned == Kind::P {
+                for df2 in [-1, 1] {
+                    if let Some(t) = sq_of(file_of(x) + df2, rank_of(x) + 1) {
+                        if p.sq[t as usize].is_none() {
+                            p.sq[t as usize] = Some((b, Kind::N));
+                            if p.attacked(it.c, b) && !p.man_attacks(it.b, it.c) {
+                                // the added knight must not check the king itself
+                                p.sq[t as usize] = None;
+                            }
+                        }
+                    }
+                }
+            }
+            with_spare_king(&p, b, rot)?
+        }
+        7 => {
+            place(&mut p, 4, (w, Kind::K));
+            if it.a & 1 != 0 {
+                place(&mut p, 7, (w, Kind::R));
+                p.castle[0] = true;
+            }
+            if it.a & 2 != 0 {
+                place(&mut p, 0, (w, Kind::R));
+                p.castle[1] = true;
+            }
+            let kinds = [Kind::N, Kind::B, Kind::R, Kind::Q, Kind::P, Kind::K];
+            if it.b == 6 {
+                if !place(&mut p, it.c, (w, Kind::N)) {
+                    return None;
+                }
+                with_spare_king(&p, b, rot)?
+            } else {
+                let k = kinds[it.b as usize];
+                if k == Kind::P && (it.c < 8 || it.c >= 56) {
+                    return None;
+                }
+                if !place(&mut p, it.c, (b, k)) {
+                    return None;
+                }
+                if k == Kind::K {
+                    if p.validity().is_err() {
+                        return None;
+                    }
+                    p
+                } else {
+                    with_spare_king(&p, b, rot)?
+                }
             }
         }
         _ => return None,
